@@ -1,7 +1,9 @@
 package props
 
 import (
+	"bytes"
 	"fmt"
+	"io"
 	"runtime"
 	"strings"
 	"testing/synctest"
@@ -120,6 +122,10 @@ func (w *c12) describeOps() string {
 }
 
 func runC12(c *Ctx) {
+	if c.G.Chance(10) {
+		runC12faulty(c)
+		return
+	}
 	g := c.G
 	r := c.R
 	w := &c12{c: c, ackedIDs: map[int]bool{}}
@@ -600,4 +606,113 @@ func indexOf(xs []int, x int) int {
 		}
 	}
 	return -1
+}
+
+// runC12faulty: the same syncer over a device that fails now and then (write
+// error, torn write, sync error) and recovers. "Accepted" then means "Write
+// reported these bytes as taken". Judged: the device always holds a prefix of
+// the accepted stream - nothing lost in the middle, duplicated or appended
+// behind a hole - and whenever Sync or Stop reports success, all of it, synced.
+func runC12faulty(c *Ctx) {
+	g, f, r := c.G, c.F, c.R
+	sink := zsim.NewSimSink(r, "dev", 1+g.Draw(2), uint64(g.Draw(1<<16))+1)
+	sink.MustProgress = true
+	r.Label(unsafe.Pointer(sink), "dev")
+	for i := 0; i < 12; i++ {
+		var o zsim.Outcome
+		switch f.Weighted(7, 2, 2, 1) {
+		case 1:
+			o.Short, o.Err = -1, fmt.Errorf("injected write error #%d", i)
+		case 2:
+			o.Short, o.Err = 1+f.Draw(4), io.ErrShortWrite
+		case 3:
+			o.Short, o.Err = 1, fmt.Errorf("injected torn write #%d", i)
+		}
+		sink.WritePlan = append(sink.WritePlan, o)
+	}
+	for i := 0; i < 6; i++ {
+		var se error
+		if f.Chance(5) {
+			se = fmt.Errorf("injected sync error #%d", i)
+		}
+		sink.SyncPlan = append(sink.SyncPlan, se)
+	}
+	clk := zsim.NewSimClock(r, drawEpoch(g))
+	size := pick(g, 4, 8, 16, 32, 64)
+	b := &zapcore.BufferedWriteSyncer{WS: sink, Size: size, FlushInterval: time.Second}
+	b.Clock = clk.For(unsafe.Pointer(b), unsafe.Sizeof(*b))
+	type fop struct {
+		kind byte
+		n    int
+	}
+	var ops []fop
+	nOps := 2 + g.Draw(12)
+	for i := 0; i < nOps; i++ {
+		if g.Weighted(5, 2) == 0 {
+			ops = append(ops, fop{'W', 1 + g.Draw(2*size)})
+		} else {
+			ops = append(ops, fop{'S', 0})
+		}
+	}
+	ops = append(ops, fop{'X', 0})
+	tickBudget := g.Draw(4)
+	var stream []byte
+	var desc []string
+	judge := func(i int, what string, success bool) bool {
+		if !bytes.HasPrefix(stream, sink.Data) {
+			c.Fail("C12: over a device that fails and recovers, bytes reached the sink that are not a prefix of the accepted stream (lost in the middle, duplicated or appended behind a hole)", "after op %d (%s): sink %q, accepted stream %q", i, what, clip(sink.Data), clip(stream))
+			return false
+		}
+		if success && (!bytes.Equal(sink.Data, stream) || sink.SyncedLen != len(sink.Data)) {
+			c.Fail("C12-D: Sync or Stop reported success although accepted bytes are not in the sink or not synced", "after op %d (%s): sink holds %d bytes (%d synced), accepted %d: sink %q, accepted stream %q", i, what, len(sink.Data), sink.SyncedLen, len(stream), clip(sink.Data), clip(stream))
+			return false
+		}
+		return true
+	}
+	r.Go("main", func() {
+		for i, op := range ops {
+			switch op.kind {
+			case 'W':
+				p := bytes.Repeat([]byte{byte('a' + i%26)}, op.n)
+				n, err := b.Write(p)
+				desc = append(desc, fmt.Sprintf("W(%d)=(%d,%v)", op.n, n, err != nil))
+				if n < 0 || n > len(p) || (n < len(p) && err == nil) {
+					c.Fail("C12: Write reported an impossible count", "Write(len %d) = (%d, %v)", len(p), n, err)
+					return
+				}
+				stream = append(stream, p[:n]...)
+				if !judge(i, desc[len(desc)-1], false) {
+					return
+				}
+			case 'S':
+				err := b.Sync()
+				desc = append(desc, fmt.Sprintf("Sync=%v", err != nil))
+				if !judge(i, desc[len(desc)-1], err == nil) {
+					return
+				}
+			case 'X':
+				err := b.Stop()
+				desc = append(desc, fmt.Sprintf("Stop=%v", err != nil))
+				if !judge(i, desc[len(desc)-1], err == nil) {
+					return
+				}
+			}
+			zsim.Yield(zsim.KOp, nil)
+		}
+	})
+	ticks := 0
+	if tickBudget > 0 {
+		r.AddEvent(&zsim.Event{Name: "tick", Avail: func() bool { return ticks < tickBudget && clk.TickAny(false) }, Fire: func() {
+			ticks++
+			c.Fault("tick")
+			clk.TickAny(true)
+		}})
+	}
+	c.Sim()
+	for k, v := range sink.Fired {
+		c.Faults[k] += v
+	}
+	c.Describe("member=faulty-device size=%d ticks<=%d ops=%s faults=%v policy=%s", size, tickBudget, strings.Join(desc, " "), sink.Fired, r.Policy)
+	c.MixState(uint64(len(sink.Data))<<16 | uint64(len(stream)))
+	c.Nontrivial = len(sink.Fired) > 0
 }
